@@ -137,7 +137,7 @@ def DKey.isLit : DKey → Bool
 
 def goodDictsB (h : Heap) : Bool :=
   h.toList.all fun n => match n with
-    | .dict es => nodupB (es.map (·.1)) && es.all (fun e => !e.1.isLit)
+    | .dict es => nodupB (es.map (·.1.norm)) && es.all (fun e => !e.1.isLit)
     | _ => true
 
 theorem goodDictsB_sound {h : Heap} (hb : goodDictsB h = true) : GoodDicts h := by
